@@ -201,17 +201,21 @@ class LinearOperator(EditableModule):
     # linear operators must have a set of parameters that affects most of
     # the methods (i.e. mm, mv, rmm, rmv)
     def getlinopparams(self) -> Sequence[torch.Tensor]:
-        return self.getuniqueparams("mm")
+        # one entry per slot (a tensor held in two slots is listed twice): which
+        # slots share a tensor can change during the lifetime of the object,
+        # while a list of parameters handed out earlier (e.g. saved for a
+        # backward pass) must keep its meaning
+        return self.getparams("mm")
 
     @contextmanager
     def uselinopparams(self, *params):
         methodname = "mm"
+        _orig_params_ = self.getparams(methodname)
         try:
-            _orig_params_ = self.getuniqueparams(methodname)
-            self.setuniqueparams(methodname, *params)
+            self.setparams(methodname, *params)
             yield self
         finally:
-            self.setuniqueparams(methodname, *_orig_params_)
+            self.setparams(methodname, *_orig_params_)
 
     ############# implemented functions ################
     def mv(self, x: torch.Tensor) -> torch.Tensor:
